@@ -71,7 +71,7 @@ package intermediate
 //@ pure aggInv(a *AggregationProcess) bool = a != nil && a.flowKeyRecordMap != nil && pqIdx(a.expirePriorityQueue) && minAtRoot(a.expirePriorityQueue) && aggI1(a) && aggI2(a)
 
 //@ func (a *AggregationProcess) deleteFlowKeyFromMapWithoutLock(flowKey) (err)
-//@   requires a:   a != nil
+//@   requires a:   a != nil && a.mutex.held
 //@   ensures  ok:  (err == nil) <==> old(has(a.flowKeyRecordMap, mapkey(flowKey)))
 //@   ensures  del: !has(a.flowKeyRecordMap, mapkey(flowKey))
 //@   ensures  others: forall k: k != mapkey(flowKey) ==> has(a.flowKeyRecordMap, k) == old(has(a.flowKeyRecordMap, k)) && a.flowKeyRecordMap[k] == old(a.flowKeyRecordMap[k])
@@ -195,16 +195,20 @@ package intermediate
 
 //@ func (a *AggregationProcess) addFieldsForStatsAggregation(record, fillSrcStats, fillDstStats) (err)
 //@   requires rec: recNN(record)
-//@   ensures  rec: recNN(record)
+//@   ensures  rec: recNN(record) && (old(flowKinds(record)) ==> flowKinds(record)) && record.(*dataRecord) == old(record.(*dataRecord))
+//@   ensures  arr: arr(recList(record)) == old(arr(recList(record))) || fresh(recList(record))
 //@   modifies record.(*dataRecord).len, record.(*dataRecord).fieldCount, record.(*dataRecord).orderedElementList, recList(record)[*]
 //@   trusted
 
 //@ func (a *AggregationProcess) addFieldsForThroughputCalculation(record, fillSrcStats, fillDstStats) (err)
 //@   requires rec: recNN(record)
-//@   ensures  rec: recNN(record)
+//@   ensures  rec: recNN(record) && (old(flowKinds(record)) ==> flowKinds(record)) && record.(*dataRecord) == old(record.(*dataRecord))
+//@   ensures  arr: arr(recList(record)) == old(arr(recList(record))) || fresh(recList(record))
 //@   modifies record.(*dataRecord).len, record.(*dataRecord).fieldCount, record.(*dataRecord).orderedElementList, recList(record)[*]
 //@   trusted
 
+//@ // distinctRec: two records are different objects with different element arrays (an incoming record is never one that is already held)
+//@ pure distinctRec(r1 entities.Record, r2 entities.Record) bool = r1.(*dataRecord) != r2.(*dataRecord) && arr(recList(r1)) != arr(recList(r2))
 //@ pure flowKinds(r entities.Record) bool = podKinds(r) && (forall j in [0, len(recList(r))):
 //@       ((ie(recList(r)[j]).Name == "egressNetworkPolicyRuleAction" || ie(recList(r)[j]).Name == "ingressNetworkPolicyRuleAction" || ie(recList(r)[j]).Name == "flowType") ==> dt(recList(r)[j]) == Unsigned8))
 
@@ -213,6 +217,7 @@ package intermediate
 //@   requires rec:  recNN(record) && flowKinds(record)
 //@   requires recs: forall k: has(a.flowKeyRecordMap, k) ==> recNN(a.flowKeyRecordMap[k].Record) && flowKinds(a.flowKeyRecordMap[k].Record)
 //@   requires newkey: forall i in [0, len(a.expirePriorityQueue)): a.expirePriorityQueue[i].flowKey != flowKey || has(a.flowKeyRecordMap, mapkey(*flowKey))
+//@   requires newrec: forall k: has(a.flowKeyRecordMap, k) ==> distinctRec(a.flowKeyRecordMap[k].Record, record)
 //@   let key = mapkey(*flowKey)
 //@   ensures  inv:  aggInv(a)
 //@   ensures  retry: aggRetry(a)
@@ -229,5 +234,100 @@ package intermediate
 //@   ensures  updready: err == nil && old(has(a.flowKeyRecordMap, key)) ==> (forall ft in [0, 256): old(flowTypeIs(record, ft)) ==>
 //@                   (a.flowKeyRecordMap[key].ReadyToSend <==> old(a.flowKeyRecordMap[key].ReadyToSend) || (old(corrReq(ft, record)) && !old(sameNode(record, a.flowKeyRecordMap[key].Record)))))
 //@   ensures  filled: err == nil && old(has(a.flowKeyRecordMap, key)) && !old(a.flowKeyRecordMap[key].ReadyToSend) && a.flowKeyRecordMap[key].ReadyToSend ==> a.flowKeyRecordMap[key].areCorrelatedFieldsFilled
-//@   modifies *
+//@   ensures  recs: forall k: has(a.flowKeyRecordMap, k) ==> recNN(a.flowKeyRecordMap[k].Record) && flowKinds(a.flowKeyRecordMap[k].Record)
+//@   ensures  which: forall k: has(a.flowKeyRecordMap, k) ==> (old(has(a.flowKeyRecordMap, k)) && a.flowKeyRecordMap[k].Record == old(a.flowKeyRecordMap[k].Record)) || a.flowKeyRecordMap[k].Record == record
+//@   ensures  arrs: record.(*dataRecord) == old(record.(*dataRecord)) && (arr(recList(record)) == old(arr(recList(record))) || fresh(recList(record)))
+//@   modifies a.mutex.held, $lastNow, a.flowKeyRecordMap[*], a.expirePriorityQueue, a.expirePriorityQueue[*], a.expirePriorityQueue[*].(*ItemToExpire).index,
+//@            a.flowKeyRecordMap[key].ReadyToSend, a.flowKeyRecordMap[key].areCorrelatedFieldsFilled,
+//@            itemOf(a, key).flowKey, itemOf(a, key).flowRecord, itemOf(a, key).activeExpireTime, itemOf(a, key).inactiveExpireTime,
+//@            record.(*dataRecord).len, record.(*dataRecord).fieldCount, record.(*dataRecord).orderedElementList, recList(record)[*],
+//@            recList(a.flowKeyRecordMap[key].Record)[*].(*StringInfoElement).value, recList(a.flowKeyRecordMap[key].Record)[*].(*Unsigned8InfoElement).value,
+//@            recList(a.flowKeyRecordMap[key].Record)[*].(*Unsigned16InfoElement).value, recList(a.flowKeyRecordMap[key].Record)[*].(*Unsigned32InfoElement).value,
+//@            recList(a.flowKeyRecordMap[key].Record)[*].(*Unsigned64InfoElement).value, recList(a.flowKeyRecordMap[key].Record)[*].(*Signed32InfoElement).value,
+//@            recList(a.flowKeyRecordMap[key].Record)[*].(*IPAddressInfoElement).value, recList(a.flowKeyRecordMap[key].Record)[*].(*DateTimeSecondsInfoElement).value
 //@   replay expiry
+
+// ---------------------------------------------------------------------------
+// Lock discipline (C13): the shared state of the aggregation process is only touched with a.mutex held
+// ---------------------------------------------------------------------------
+
+//@ guarded intermediate.AggregationProcess.flowKeyRecordMap, intermediate.AggregationProcess.expirePriorityQueue, intermediate.AggregationProcess.workerList by intermediate.AggregationProcess.mutex
+
+//@ func (a *AggregationProcess) GetNumFlows() (r)
+//@   requires a:    a != nil && !a.mutex.held && !a.mutex.rheld
+//@   ensures  n:    r == len(a.flowKeyRecordMap)
+//@   ensures  lock: !a.mutex.held && !a.mutex.rheld
+//@   modifies a.mutex.held
+
+//@ func (a *AggregationProcess) deleteFlowKeyFromMap(flowKey) (err)
+//@   requires a:    a != nil && !a.mutex.held && !a.mutex.rheld
+//@   ensures  ok:   (err == nil) <==> old(has(a.flowKeyRecordMap, mapkey(flowKey)))
+//@   ensures  del:  !has(a.flowKeyRecordMap, mapkey(flowKey))
+//@   ensures  lock: !a.mutex.held && !a.mutex.rheld
+//@   modifies a.mutex.held, a.flowKeyRecordMap[*]
+
+//@ func (a *AggregationProcess) ForAllRecordsDo(callback) (err)
+//@   requires a:    a != nil && !a.mutex.held && !a.mutex.rheld && callback != nil
+//@   ensures  lock: !a.mutex.held && !a.mutex.rheld
+//@   modifies *
+//@   loop 1 invariant held: a.mutex.held && !a.mutex.rheld
+
+//@ func (a *AggregationProcess) GetRecords(flowKey) (r)
+//@   requires a:    a != nil && !a.mutex.held && !a.mutex.rheld
+//@   requires recs: forall k: has(a.flowKeyRecordMap, k) ==> a.flowKeyRecordMap[k] != nil && recNN(a.flowKeyRecordMap[k].Record)
+//@   ensures  lock: !a.mutex.held && !a.mutex.rheld
+//@   modifies *
+//@   loop 1 invariant held: a.mutex.held && !a.mutex.rheld
+
+//@ func (a *AggregationProcess) Start() ()
+//@   requires a:    a != nil && !a.mutex.held && !a.mutex.rheld
+//@   ensures  lock: !a.mutex.held && !a.mutex.rheld
+//@   modifies *
+//@   loop 1 invariant held: a.mutex.held && !a.mutex.rheld
+
+//@ func (a *AggregationProcess) Stop() ()
+//@   requires a:    a != nil && !a.mutex.held && !a.mutex.rheld
+//@   requires wl:   forall i in [0, len(a.workerList)): a.workerList[i] != nil
+//@   ensures  lock: !a.mutex.held && !a.mutex.rheld
+//@   modifies *
+//@   loop 1 invariant held: a.mutex.held && !a.mutex.rheld
+
+//@ // workers: goroutine plumbing, outside the sequential semantics; only their frame is stated
+//@ func createWorker(id, messageChan, job) (r)
+//@   ensures r: r != nil && fresh(r)
+//@   trusted
+//@
+//@ func (w *worker) start() ()
+//@   noeffect
+//@   trusted
+//@
+//@ func (w *worker) stop() ()
+//@   noeffect
+//@   trusted
+
+//@ // the 5-tuple key of a record: a fresh FlowKey (the field-by-field extraction is not specified here)
+//@ func getFlowKeyFromRecord(record) (r, isIPv4, err)
+//@   requires rec: recNN(record)
+//@   ensures  ok:  err == nil ==> r != nil && fresh(r)
+//@   ensures  bad: err != nil ==> r == nil
+//@   trusted
+
+//@ pure msgRecs(m *entities.Message) []entities.Record = m.set.(*entities.set).records
+//@ func (a *AggregationProcess) AggregateMsgByFlowKey(message) (err)
+//@   requires inv:  aggInv(a) && aggRetry(a) && !a.mutex.held && !a.mutex.rheld
+//@   requires msg:  message != nil && is(message.set, *entities.set) && message.set.(*entities.set) != nil
+//@                  && (forall i in [0, len(msgRecs(message))): recNN(msgRecs(message)[i]) && flowKinds(msgRecs(message)[i]))
+//@   requires recs: forall k: has(a.flowKeyRecordMap, k) ==> recNN(a.flowKeyRecordMap[k].Record) && flowKinds(a.flowKeyRecordMap[k].Record)
+//@   // the records of an incoming message are new objects: none is held already, and they are pairwise distinct
+//@   requires newrecs: forall i in [0, len(msgRecs(message))): forall k: has(a.flowKeyRecordMap, k) ==> distinctRec(a.flowKeyRecordMap[k].Record, msgRecs(message)[i])
+//@   requires pairwise: forall i in [0, len(msgRecs(message))): forall j in [0, len(msgRecs(message))): i != j ==> distinctRec(msgRecs(message)[i], msgRecs(message)[j])
+//@   ensures  inv:  aggInv(a) && aggRetry(a)
+//@   ensures  recs: forall k: has(a.flowKeyRecordMap, k) ==> recNN(a.flowKeyRecordMap[k].Record) && flowKinds(a.flowKeyRecordMap[k].Record)
+//@   ensures  lock: !a.mutex.held && !a.mutex.rheld
+//@   modifies *
+//@   loop 1 invariant inv:  aggInv(a) && aggRetry(a) && !a.mutex.held && !a.mutex.rheld && message != nil && is(message.set, *entities.set) && message.set.(*entities.set) != nil && 0 <= $i
+//@   loop 1 invariant same: msgRecs(message) == old(msgRecs(message)) && records == msgRecs(message)
+//@   loop 1 invariant recs: forall k: has(a.flowKeyRecordMap, k) ==> recNN(a.flowKeyRecordMap[k].Record) && flowKinds(a.flowKeyRecordMap[k].Record)
+//@   loop 1 invariant msg:  forall i in [$i, len(msgRecs(message))): recNN(msgRecs(message)[i]) && flowKinds(msgRecs(message)[i])
+//@   loop 1 invariant newrecs: forall i in [$i, len(msgRecs(message))): forall k: has(a.flowKeyRecordMap, k) ==> distinctRec(a.flowKeyRecordMap[k].Record, msgRecs(message)[i])
+//@   loop 1 invariant pairwise: forall i in [0, len(msgRecs(message))): forall j in [0, len(msgRecs(message))): i != j ==> distinctRec(msgRecs(message)[i], msgRecs(message)[j])
